@@ -112,7 +112,18 @@ func C14(ctx *core.Ctx) int {
 	core.Parallel(len(cliProgs), func(i int) {
 		c14CLI(ctx, bin, cliProgs[i], st)
 	})
+	// every generator history up to a depth, each in a process of its own (c14fresh.go)
+	fs := &freshStats{}
+	depth := 2
+	if ctx.Thorough() {
+		depth = 3
+	}
+	core.Parallel(len(cliProgs), func(i int) {
+		c14Fresh(ctx, cliProgs[i].Name, cliProgs[i].Text(), depth, fs)
+	})
 	cov := core.Coverage{
+		"fresh_process_histories": map[string]any{"depth": depth, "programs": fs.programs, "histories": fs.histories, "processes": fs.processes,
+			"rule": "every sequence of 2..depth distinct generators applied to one parsed model in a process of its own; the last generator's files must equal those of a process that ran it alone (sees state kept outside the model, in any order, which neither the model dump nor the command line's fixed order can)"},
 		"states":                        st.states,
 		"transitions":                   st.transitions,
 		"traces_validated_against_impl": st.traces,
